@@ -719,6 +719,10 @@ func (sc c13Scenario) run(r Rng) (fails []Failure, reads *c13Reads) {
 			time.Sleep(2 * time.Millisecond)
 			sendSplit(simFrame{Port: sc.port + 1, Kind: 'C', From: "N0THIRD", To: sc.mycall, Data: []byte("*** CONNECTED To Station " + sc.mycall + "\r")}.encode())
 			time.Sleep(2 * time.Millisecond)
+			// and one in which this station's callsign is the CALLER's (another application on the
+			// same TNC link was called under it): not a connection to this listener either
+			sendSplit(simFrame{Port: sc.port, Kind: 'C', From: sc.mycall, To: "N0OTHER", Data: []byte("*** CONNECTED To Station N0OTHER\r")}.encode())
+			time.Sleep(2 * time.Millisecond)
 			// the notification is repeated when it is not taken up: on a loaded machine the Accept
 			// goroutine may not be waiting yet (the library then refuses the connection, by design),
 			// or the non-blocking Enqueue may have dropped the frame (known finding)
